@@ -137,7 +137,8 @@ func VP_C13_opb() {
 		}
 		sb.WriteString(" ;\n")
 	}
-	if zzvp.Choose("comment", 2) == 1 {
+	layout := zzvp.Param("layout", 1) == 1
+	if layout && zzvp.Choose("comment", 2) == 1 {
 		sb.WriteString("* a comment\n")
 	}
 	var cs []vpOPBConstr
@@ -147,7 +148,7 @@ func VP_C13_opb() {
 			k = n
 		}
 		c := vpOPBConstr{}
-		plus := zzvp.Choose("plus", 2) == 1
+		plus := layout && zzvp.Choose("plus", 2) == 1
 		first := true
 		var line strings.Builder
 		for i := 0; i < k; i++ {
